@@ -43,7 +43,7 @@ type infPoint struct {
 }
 
 var infFvNames = map[int]string{1: "ConvV", 2: "Same1", 3: "Map1", 4: "PairV", 5: "SumS"}
-var infNames = map[int]string{15: "Collect", 16: "Cast", 17: "Mk", 1: "Id", 2: "Eq", 3: "Sum", 4: "Map", 5: "Keys", 6: "Ptr", 7: "Sl", 8: "Two", 9: "Conv", 10: "Ai", 11: "App", 12: "Same", 13: "Fn", 14: "SlE"}
+var infNames = map[int]string{15: "Collect", 16: "Cast", 17: "Mk", 1: "Id", 2: "Eq", 3: "Sum", 4: "Map", 5: "Keys", 6: "Ptr", 7: "Sl", 8: "Two", 9: "Conv", 10: "Ai", 11: "App", 12: "Same", 13: "Fn", 14: "SlE", 18: "Gather"}
 
 const infFixture = `package ov
 
@@ -67,6 +67,7 @@ func SlE[S ~[]E, E int | float64](s S, e E) func(S, E)   { return nil }
 func Collect[R, T any](xs ...T) func(R, T)               { return nil }
 func Cast[R, T any](x T) func(R, T)                      { return nil }
 func Mk[R any]() func(R)                                 { return nil }
+func Gather[T, U any](u U, xs ...T) func(T, U)           { return nil }
 
 // the same three as type-as-parameter functions: XCollect(R, xs...), XCast(R, x), XMk(R)
 const XGoPackage = true
@@ -74,6 +75,7 @@ const XGoPackage = true
 func XGox_XCollect[R, T any](xs ...T) func(R, T) { return nil }
 func XGox_XCast[R, T any](x T) func(R, T)        { return nil }
 func XGox_XMk[R any]() func(R)                   { return nil }
+func XGox_XGather[T, U any](u U, xs ...T) func(T, U) { return nil }
 
 // generic functions used as values
 func ConvV[To, From any](src From) To           { var z To; return z }
@@ -90,6 +92,9 @@ var infArgText = map[string]string{"c1": "1", "c15": "1.5", "cs": `"s"`, "nil": 
 func (p infPoint) text() string {
 	if p.Kind == "ti" {
 		return fmt.Sprintf("ov.%s[%s]", tiName(p.Fam), strings.Join(p.Expl, ", "))
+	}
+	if p.Kind == "pv" {
+		return fmt.Sprintf("ov.%s[%s]", infNames[p.Sig], strings.Join(p.Expl, ", "))
 	}
 	if p.Kind == "fv" {
 		ex := ""
@@ -121,7 +126,7 @@ func (p infPoint) want() string {
 	if p.Kind == "ti" {
 		return fmt.Sprintf("ov.%s[%s]", tiCandName(p.Fam, p.First), strings.Join(p.Expl, ","))
 	}
-	if p.Kind == "fv" {
+	if p.Kind == "fv" || p.Kind == "pv" {
 		return strings.Join(p.TArgs, ", ")
 	}
 	return "func(" + strings.Join(p.TArgs, ", ") + ")"
@@ -148,6 +153,9 @@ func (p infPoint) class() string {
 	if p.Kind == "fv" {
 		return fmt.Sprintf("function-value/%s/explicit=%d/%s", infFvNames[p.Sig], len(p.Expl), p.Target)
 	}
+	if p.Kind == "pv" {
+		return fmt.Sprintf("instantiated-function-as-value/%s/explicit=%d", infNames[p.Sig], len(p.Expl))
+	}
 	ell := ""
 	if p.Ell {
 		ell = "..."
@@ -168,7 +176,7 @@ func infReference(ovPkg *types.Package, base types.Importer, pts []infPoint) ([]
 	for i, p := range pts {
 		if p.Kind == "ti" {
 			fmt.Fprintf(&b, "_ = 0 // type instantiation %d: see tiReference\n", i)
-		} else if p.Kind == "fv" {
+		} else if p.Kind == "fv" || p.Kind == "pv" {
 			fmt.Fprintf(&b, "var x%d %s = %s; _ = x%d\n", i, p.Target, strings.TrimSuffix(strings.TrimPrefix(p.text(), p.Target+"("), ")"), i)
 		} else {
 			fmt.Fprintf(&b, "_ = %s\n", p.text())
@@ -206,7 +214,7 @@ func infReference(ovPkg *types.Package, base types.Importer, pts []infPoint) ([]
 	for i, p := range pts {
 		msg, isBad := bad[first+i]
 		out[i] = infT{ok: !isBad, msg: msg}
-		if p.Kind == "fv" {
+		if p.Kind == "fv" || p.Kind == "pv" {
 			si += 2 // declaration + blank assignment
 			if !isBad {
 				out[i].res = instByLine[first+i]
@@ -266,6 +274,10 @@ func (w *infWorld) explType(n string) types.Type {
 		return types.Typ[types.String]
 	case "[]int":
 		return types.NewSlice(types.Typ[types.Int])
+	case "[]string":
+		return types.NewSlice(types.Typ[types.String])
+	case "[]float64":
+		return types.NewSlice(types.Typ[types.Float64])
 	case "ov.MyInt":
 		return w.ov.Ref("MyInt").Type()
 	case "ov.MySl":
@@ -311,7 +323,7 @@ func tiFixture() string {
 	return b.String()
 }
 
-var infXgox = map[int]string{15: "XCollect", 16: "XCast", 17: "XMk"}
+var infXgox = map[int]string{15: "XCollect", 16: "XCast", 17: "XMk", 18: "XGather"}
 
 // call builds the call; real = "" (F[explicit...](args)) or "xgox" (the type-as-parameter form XF(explicit..., args))
 func (w *infWorld) call(p infPoint, real string) (g infG) {
@@ -406,6 +418,8 @@ func (w *infWorld) targetType(s string) types.Type {
 		return types.NewSignatureType(nil, nil, nil, types.NewTuple(pv...), types.NewTuple(par(r)), false)
 	}
 	switch s {
+	case "": // no declared type: var v = F[X]
+		return nil
 	case "func(int) string":
 		return fn(ts, ti)
 	case "func(int) int":
@@ -439,7 +453,11 @@ func (w *infWorld) funcValue(p infPoint, name string) (g infG) {
 		}
 	}()
 	cb := pkg.NewVarStart(token.NoPos, w.targetType(p.Target), name)
-	cb.Val(w.ov.Ref(infFvNames[p.Sig]))
+	if p.Kind == "pv" {
+		cb.Val(w.ov.Ref(infNames[p.Sig]))
+	} else {
+		cb.Val(w.ov.Ref(infFvNames[p.Sig]))
+	}
 	if len(p.Expl) > 0 {
 		for _, t := range p.Expl {
 			cb.Typ(w.explType(t))
@@ -507,11 +525,11 @@ func runC07(tier, replay string) {
 		states, transitions = 1, 1
 	} else {
 		forms := `{"vi","vf","vs","vmy","vsl","vmysl","vslf","vm","vpi","vfis","vfii","c1","c15","cs","nil"}`
-		cfgs := []string{fmt.Sprintf("INIT Init\nNEXT Next\nCONSTANTS\n  SigIds = {1,2,3,4,5,6,7,8,9,10,11,12,13,14,15,16,17}\n  Forms = %s\n  ExplNames = {\"int\",\"float64\",\"MySl\"}\n  MaxExpl = 1\n  MaxVariadic = 2\n  FvSigs = {1,2,3,4,5}\n  TypeInst = TRUE\nINVARIANTS ExplicitRespected InferredSatisfies Symmetric Emit\nCHECK_DEADLOCK FALSE\n", forms)}
+		cfgs := []string{fmt.Sprintf("INIT Init\nNEXT Next\nCONSTANTS\n  SigIds = {1,2,3,4,5,6,7,8,9,10,11,12,13,14,15,16,17,18}\n  Forms = %s\n  ExplNames = {\"int\",\"float64\",\"MySl\",\"[]string\"}\n  MaxExpl = 1\n  MaxVariadic = 2\n  FvSigs = {1,2,3,4,5}\n  TypeInst = TRUE\n  PvSigs = {1,2,3,7,8,10,14}\nINVARIANTS ExplicitRespected InferredSatisfies Symmetric Emit\nCHECK_DEADLOCK FALSE\n", forms)}
 		if tier == "thorough" {
 			cfgs = append(cfgs,
-				fmt.Sprintf("INIT Init\nNEXT Next\nCONSTANTS\n  SigIds = {4,5,7,8,9,14,16,17}\n  Forms = %s\n  ExplNames = {\"int\",\"float64\",\"string\",\"MyInt\",\"MySl\",\"[]int\"}\n  MaxExpl = 2\n  MaxVariadic = 0\n  FvSigs = {1,2,3,4,5}\n  TypeInst = TRUE\nINVARIANTS ExplicitRespected InferredSatisfies Symmetric Emit\nCHECK_DEADLOCK FALSE\n", forms),
-				fmt.Sprintf("INIT Init\nNEXT Next\nCONSTANTS\n  SigIds = {3,11,15}\n  Forms = %s\n  ExplNames = {\"int\",\"float64\",\"MyInt\"}\n  MaxExpl = 2\n  MaxVariadic = 3\n  FvSigs = {}\n  TypeInst = FALSE\nINVARIANTS ExplicitRespected InferredSatisfies Symmetric Emit\nCHECK_DEADLOCK FALSE\n", `{"vi","vf","vmy","vsl","vmysl","c1","c15","cs","nil"}`))
+				fmt.Sprintf("INIT Init\nNEXT Next\nCONSTANTS\n  SigIds = {4,5,7,8,9,14,16,17}\n  Forms = %s\n  ExplNames = {\"int\",\"float64\",\"string\",\"MyInt\",\"MySl\",\"[]int\",\"[]string\"}\n  MaxExpl = 2\n  MaxVariadic = 0\n  FvSigs = {1,2,3,4,5}\n  TypeInst = TRUE\n  PvSigs = {1,2,3,7,8,10,14}\nINVARIANTS ExplicitRespected InferredSatisfies Symmetric Emit\nCHECK_DEADLOCK FALSE\n", forms),
+				fmt.Sprintf("INIT Init\nNEXT Next\nCONSTANTS\n  SigIds = {3,11,15,18}\n  Forms = %s\n  ExplNames = {\"int\",\"float64\",\"MyInt\"}\n  MaxExpl = 2\n  MaxVariadic = 3\n  FvSigs = {}\n  TypeInst = FALSE\n  PvSigs = {}\nINVARIANTS ExplicitRespected InferredSatisfies Symmetric Emit\nCHECK_DEADLOCK FALSE\n", `{"vi","vf","vmy","vsl","vmysl","c1","c15","cs","nil"}`))
 		}
 		seen := map[string]bool{}
 		for ci, cfg := range cfgs {
@@ -612,7 +630,7 @@ func runC07(tier, replay string) {
 				run.Fail("rejected-although-go-infers/"+real+p.class(), fmt.Sprintf("%s: Go infers %s; the builder reports: %s", desc, p.want(), firstLines(g.msg, 2)), pk)
 			case !p.Ok && !g.rejected:
 				run.Fail("accepted-although-go-rejects/"+real+p.class(), fmt.Sprintf("%s: Go rejects it (%s); the builder emits %s of type %s", desc, tref0(tref, pts, p), g.expr, g.res), pk)
-			case p.Ok && p.Kind != "fv" && g.res != p.want():
+			case p.Ok && p.Kind != "fv" && p.Kind != "pv" && g.res != p.want():
 				run.Fail("instantiated-signature-differs/"+real+p.class(), fmt.Sprintf("%s: Go instantiates %s; the builder reports %s", desc, p.want(), g.res), pk)
 			}
 		}
@@ -659,7 +677,7 @@ func runC07(tier, replay string) {
 				}
 				continue
 			}
-			if p.Kind == "fv" {
+			if p.Kind == "fv" || p.Kind == "pv" {
 				// a rejected initialiser leaves the declaration half built: every function-value point gets its own package
 				initMu.Lock()
 				w2 := newInfWorld(gogenPkg, base)
@@ -701,7 +719,8 @@ func runC07(tier, replay string) {
 			if p.Real != "xgox" {
 				judge(p, w.call(p, ""), "")
 			}
-			if _, ok := infXgox[p.Sig]; ok && (p.Real == "" || p.Real == "xgox") {
+			// (a type-as-parameter function takes its leading type arguments as ordinary arguments: without any there is nothing to realise)
+			if _, ok := infXgox[p.Sig]; ok && (p.Real == "" || p.Real == "xgox") && (len(p.Expl) > 0 || !p.Ok) {
 				judge(p, w.call(p, "xgox"), "xgox")
 			}
 		}
